@@ -224,6 +224,13 @@ def bounded(ctx):
             extra.append(s[:mid] + gen.rc(site) + s[mid:])
             j = rng.randrange(len(s))
             extra.append(s[:j] + rng.choice([c for c in "ACGT" if c != s[j]]) + s[j + 1:])
+            # the same plasmids spelled in lower case, and with only the further site in lower case: the enzyme cuts
+            # whatever the spelling, so the class must screen them alike (the oracle below is case-insensitive)
+            ins1, ins2 = site + "A" * (a + k + 2), gen.rc(site)
+            extra.append((s[:mid] + ins1 + s[mid:]).lower())
+            extra.append(s[:mid] + ins1.lower() + s[mid:])
+            extra.append(s[:mid] + ins2.lower() + s[mid:])
+            extra.append(s.lower())
         for s in records + extra:
             n = len(s)
             rots = range(n) if (ctx.tier != "quick" or n <= 40) else sorted(set(list(range(0, n, 3)) + list(range(min(n, 14))) + list(range(max(0, n - 14), n))))
@@ -251,7 +258,8 @@ def bounded(ctx):
             uniq.append(v)
     return dict(evaluations=evals, distinct_nontrivial=len(distinct),
                 rule="every concrete kit class (%d) and generic module/vector classes over %d enzymes x seeded instances of "
-                     "the class's structure (+ an extra forward site, an extra reverse site, a one-letter mutation) x "
+                     "the class's structure (+ an extra forward site, an extra reverse site, a one-letter mutation; lower-case and "
+                     "partly lower-case spellings of these) x "
                      "rotations; every accepted record is checked against cut positions computed by plain string search; "
                      "non-trivial = accepted (distinct by class, record)" % (len(classes), len(gens)),
                 bound="%d records per class, runs of 2-9 letters, all rotations (quick: a third of them for long records)" % (per + 3),
